@@ -17,6 +17,8 @@ import (
 	"net/http"
 	"os"
 	"path/filepath"
+	"runtime"
+	"strconv"
 	"strings"
 	"syscall"
 
@@ -30,8 +32,10 @@ import (
 )
 
 const (
-	markBegin = "/VERIF_MARK_BEGIN"
-	markEnd   = "/VERIF_MARK_END"
+	markBegin  = "/VERIF_MARK_BEGIN"
+	markEnd    = "/VERIF_MARK_END"
+	markBBegin = "/VERIF_MARK_B_BEGIN"
+	markBEnd   = "/VERIF_MARK_B_END"
 	// padCalls dummy calls are issued by the operation's thread before the begin
 	// marker so that its per-thread strace counter of `write` is always ahead
 	// of every other thread of the process (the http transport writes the
@@ -116,6 +120,7 @@ type Spec struct {
 	URL    string   `json:"url"`    // httptest server of the runner
 	RawURL string   `json:"rawurl"` // raw TCP server of the runner that can misbehave (var word srv=<mode>)
 	Signet string   `json:"signet"` // base58 recipient signet for signature verification
+	Fifo   string   `json:"fifo"`   // concurrent-calls scenarios: the second call starts when the runner opens this FIFO
 	Writer string   `json:"writer"` // overlapping-writer scenarios: "A" (stopped and continued) or "B" (runs in between)
 }
 
@@ -198,6 +203,8 @@ func sizeOf(name string) int {
 		return 100*1024 + 7
 	case "large":
 		return 3*1024*1024 + 13
+	case "twomib":
+		return 2*1024*1024 + 5
 	}
 	panic("unknown size " + name)
 }
@@ -320,14 +327,40 @@ func makeZip(size, dmg string) []byte {
 	return b.Bytes()
 }
 
+// gzipMembers: the contents of the members of the gzip resource. gzm=2 / gzm=3
+// make a multi-member file (cat a.gz b.gz ...): member 1 has the scenario's
+// size, member 2 is 2 MiB for large content (else small), member 3 is small.
+func gzipMembers(sc Scenario) [][]byte {
+	out := [][]byte{content("NEW", sc.New)}
+	n, _ := strconv.Atoi(sc.word("gzm="))
+	if n >= 2 {
+		second := "small"
+		if sc.New == "large" {
+			second = "twomib"
+		}
+		out = append(out, content("NEWM2", second))
+	}
+	if n >= 3 {
+		out = append(out, content("NEWM3", "small"))
+	}
+	return out
+}
+
+// gzipContent is what the unpacked file must hold: all members concatenated.
+func gzipContent(sc Scenario) []byte {
+	return bytes.Join(gzipMembers(sc), nil)
+}
+
 // makeGzip compresses the new content; with dmg "gz-cut-*" the file ends early.
-func makeGzip(size, dmg string) []byte {
+func makeGzip(sc Scenario) []byte {
 	var b bytes.Buffer
-	zw := gzip.NewWriter(&b)
-	_, _ = zw.Write(content("NEW", size))
-	_ = zw.Close()
+	for _, m := range gzipMembers(sc) {
+		zw := gzip.NewWriter(&b)
+		_, _ = zw.Write(m)
+		_ = zw.Close()
+	}
 	out := b.Bytes()
-	if dmg != "" {
+	if dmg := sc.damage(); dmg != "" {
 		out = out[:cutPoint(dmg, len(out))]
 	}
 	return out
@@ -543,8 +576,8 @@ func prepare(sp *Spec) *Expect {
 		ex.TempTrees = []string{l.RegTmp}
 	case opUnpackFile:
 		mustMkdir(l.RegTmp, 0o700)
-		mustWrite(l.Archive, makeGzip(sc.New, sc.damage()), 0o644)
-		ex.NewBytes = content("NEW", sc.New)
+		mustWrite(l.Archive, makeGzip(sc), 0o644)
+		ex.NewBytes = gzipContent(sc)
 		ex.TempLocs, ex.ProbeLocs = nil, nil
 		ex.TempTrees = []string{l.RegTmp}
 	default:
@@ -708,6 +741,27 @@ func driverMain(specFile string) int {
 		_ = null.Close()
 	}
 
+	// concurrent-calls scenarios: a second call of the same operation on the same
+	// objects runs on its own thread of this process; it starts when the runner
+	// opens the FIFO (which it does when it sees call A delayed by strace).
+	var resB chan error
+	if sp.Fifo != "" {
+		resB = make(chan error, 1)
+		go func() {
+			runtime.LockOSThread()
+			f, err := os.OpenFile(sp.Fifo, os.O_RDONLY, 0)
+			if err != nil {
+				resB <- fmt.Errorf("DRIVER fifo: %w", err)
+				return
+			}
+			_ = f.Close()
+			mark(markBBegin)
+			err = op()
+			mark(markBEnd)
+			resB <- err
+		}()
+	}
+
 	mark(markBegin)
 	err = op()
 	mark(markEnd)
@@ -715,6 +769,13 @@ func driverMain(specFile string) int {
 		fmt.Printf("RESULT err %s\n", strings.ReplaceAll(err.Error(), "\n", " "))
 	} else {
 		fmt.Println("RESULT ok")
+	}
+	if resB != nil {
+		if errB := <-resB; errB != nil {
+			fmt.Printf("RESULTB err %s\n", strings.ReplaceAll(errB.Error(), "\n", " "))
+		} else {
+			fmt.Println("RESULTB ok")
+		}
 	}
 	return 0
 }
